@@ -449,6 +449,7 @@ def run(ctx: Ctx) -> None:
     rule_guarded_lookup(ctx)
     rule_metric_copies(ctx)
     shapes.rule_metric_source(ctx)
+    shapes.rule_reset_points(ctx)
     from ..rules import loops
     loops.rule_iter_snapshot(ctx, "graphiq/circuit/circuit_dag.py", "CircuitDAG")
     ctx.floor("flow.definite-attr", 30)
@@ -476,6 +477,7 @@ def _bfs_depth(src: str) -> str:
 
 
 KNOCKOUTS = [
+    Knockout("reset-points-classical-cnot", METRICS, sub_nth('                    "MeasurementCNOTandReset",\n', '                    "MeasurementCNOTandReset",\n                    "ClassicalCNOT",\n', 0), "metric.reset-points", "reset points"),
     Knockout("depth-breadth-first", "graphiq/circuit/circuit_dag.py", _bfs_depth, "depth.longest", "breadth-first"),
     Knockout("emit-depth-history-from-original", METRICS, sub_once("            e_depth[e_i] = len(c.reg_gate_history(reg=e_i)[1]) - 2", "            e_depth[e_i] = len(circuit.reg_gate_history(reg=e_i)[1]) - 2"), "metric.receiver", "un-flattened circuit"),
     Knockout("depth-memo-never-reset", "graphiq/circuit/circuit_dag.py", _depth_memo, "memo.sound", "key does not determine"),
